@@ -169,7 +169,7 @@ func init() {
 	reg("C03",
 		"Structural clauses of the list family: no push onto a list that may just have been detached from the keyspace (R-C03-detached: LMOVE with source = destination), emptiness test after every unlink (A4-empty), an element is inserted after every creation of an empty list (A4-nonempty-create), list constructors set the complete link/count field set (R-ctor-agree), typed-accessor results are nil-tested before use (R-typed-nil), argument agreement with the grammar (A7, redisList.go). (R-list-shape) every function that writes list links is executed symbolically path by path from a well-formed list and leaves the written heap well formed: back links, head.prev=nil, tail.next=nil, head nil iff tail nil, count adjusted by the nodes linked/detached; (R-list-unlinked-use) a detached node is not followed; (A4-inert) failed list commands change nothing.",
 		"which element a command selects (index normalisation, LPOS/LREM/LINSERT/LTRIM ranges, counts) and the replies — runtime values; the shape rule covers the link-writing primitives, not the choice of node they are applied to",
-		nil, ruleDetached, ruleListShape, ruleListUnlinkedUse, ruleEmptyRemovesOwnKey, ruleTypeBeforeReply, ruleLoopElementFresh, family(0, "list", ruleOverflowChecked), family(1, "list", ruleA8), ruleReadonly(tokenScope("list")), family(3, "list", ruleA4Empty), family(1, "list", ruleNonEmptyCreate), ruleCtorAgree, family(3, "list", ruleTypedNil), family(3, "list", ruleA4Inert), a7Family(15, "list"))
+		nil, ruleDetached, ruleListShape, ruleListUnlinkedUse, ruleEmptyRemovesOwnKey, ruleTypeBeforeReply, ruleLoopElementFresh, ruleListCacheInvalidated, family(0, "list", ruleOverflowChecked), family(1, "list", ruleA8), ruleReadonly(tokenScope("list")), family(3, "list", ruleA4Empty), family(1, "list", ruleNonEmptyCreate), ruleCtorAgree, family(3, "list", ruleTypedNil), family(3, "list", ruleA4Inert), a7Family(15, "list"))
 	reg("C04",
 		"Structural clauses of the hash family: sibling handlers' distinguishing parameter is used by the shared helper (R-sibling-param: HSETNX), overflow test (R-overflow-idiom / R-overflow-signs: HINCRBY), fixed-notation float text (R-float-text: HINCRBYFLOAT), emptiness test after field removal (A4-empty), insertion after creation (A4-nonempty-create), nil-tested accessors (R-typed-nil), argument agreement (A7, redisHashTable.go). (A4-inert, hash family) failed hash commands change nothing.",
 		"field/value contents, HRANDFIELD distribution, float formatting, dictionary growth/shrink arithmetic",
